@@ -28,6 +28,7 @@ type AccountSpec struct {
 	Login, Name, Password string
 	Access                hlref.Access
 	FileRoot              string
+	RawPassword           *string // when set, written verbatim as the stored Password field (e.g. not a bcrypt hash)
 }
 
 type Options struct {
@@ -150,6 +151,9 @@ type accountFile struct {
 // privilege names.
 func AccountYAML(a AccountSpec) []byte {
 	af := accountFile{Login: a.Login, Name: a.Name, Password: HashPassword(a.Password), Access: map[string]bool{}, FileRoot: a.FileRoot}
+	if a.RawPassword != nil {
+		af.Password = *a.RawPassword
+	}
 	for i, n := range hlref.PrivilegeNames {
 		af.Access[n] = a.Access.Has(i)
 	}
